@@ -125,7 +125,9 @@ def check_apostrophes(string):
 
     https://developer.android.com/guide/topics/resources/string-resource#escaping_quotes
     """
-    for m in re.finditer('""', string):
+    # an escaped quote followed by a quote is not a double quote,
+    # blank out escapes, keeping offsets
+    for m in re.finditer('""', re.sub(r"\\.", "  ", string)):
         yield ("error", m.start(), "Double straight quotes not allowed", "android")
     string = silencer.sub("  ", string)
 
